@@ -17,13 +17,15 @@ LEAFCOLS = {**LEAVES, **{k: v[1] for k, v in SPECIAL.items()}}
 STD = None
 
 
+from ..prog import _OPS as _ALL_OPS  # noqa: E402
+
+
 def _leaves_in(node, acc):
     if node[0] == "leaf":
         acc.add(node[1])
     else:
         for x in node[1:]:
-            if isinstance(x, tuple) and x and isinstance(x[0], str) and x[0] in (
-                    "leaf", "calc", "proj", "sel", "dedup", "sort", "slice", "chain", "join", "mat", "xfer"):
+            if isinstance(x, tuple) and x and isinstance(x[0], str) and x[0] in _ALL_OPS:
                 _leaves_in(x, acc)
     return acc
 
@@ -36,6 +38,11 @@ def processor_shapes(tier):
     progs = [("chain", I, pX0), ("chain", pX0, I), ("chain", ("dedup", pX0), pX0), ("chain", I, I), ("chain", ("dedup", ("proj", ("sel", X, K), ())), pX0),
              ("chain", D0, X), ("chain", X, D0), ("chain", ("sel", X, ("plit", False)), X), ("dedup", ("chain", I, pX0)),
              ("chain", ("chain", I, pX0), I), ("slice", ("chain", pX0, I), 0, 1)]
+    # a transfer whose payload (handed over lazily by an earlier process()) is itself a compound iterable, read by a chain: evaluating
+    # twice must stay within the static bounds
+    lazy = ("proc", ("xfer", ("chain", X, X), "it2"))
+    progs += [("chain", lazy, ("xfer", X, "it2")), ("chain", ("xfer", X, "it2"), lazy), ("dedup", ("chain", lazy, ("xfer", ("sel", X, K), "it2"))),
+              ("chain", ("chain", lazy, ("xfer", X, "it2")), ("xfer", X, "it2"))]
     return [{"eng": "it1", "prog": p, "params": ({"$k1": [None, None]} if "$k1" in repr(p) else {}), "cons": [], "n": 2, "labels": ["processor"],
              "processor": True} for p in progs]
 
@@ -60,8 +67,8 @@ def run_processor_shape(shape):
         db = symproc.SymDB(env)
         log = []
         out = symproc.make_processor(db, log).process(rel)
-        direct = [dict(r) for r in rel.engine.execute(rel)]
-        processed = [dict(r) for r in out.engine.execute(out)]
+        direct = [dict(r) for r in common.take(rel.engine.execute(rel))]
+        processed = [dict(r) for r in common.take(out.engine.execute(out))]
         return env, rel, direct, processed, rows
 
     def h(ctx):
